@@ -101,7 +101,7 @@ def check(run, tier):
     idents = [("alice", None), ("bob", None), ("bob", ["gA"]), ("carol", ["gA", "gB"]), ("carol", [])]
     w = {"Create": 3, "Register": 3, "CreateKeyPair": 1, "GetAttributeList": 3, "GetAttributes": 3, "Get": 2, "Attr": 3,
          "Locate": 2, "Activate": 2, "Destroy": 1, "Query": 1, "DiscoverVersions": 1}
-    n, m = (48, 30) if quick else (400, 60)
+    n, m = (96, 40) if quick else (400, 60)
     genkw = {"weights": w, "idents": idents, "versions": G.VERSIONS + [(3, 0)],
              "policies": ["default", "open", "grouped", "groupsonly", "partial"]}
     E.rsa_pair()
